@@ -3,6 +3,7 @@
    ctl P|R <id> <prio> <cond tokens> then <k> <v> ... [else <k> <v> ...]
         cond := sim <rel> <thr> <rep> | tod <rel> <thr> <rep01> <firstDay> | and cond cond | or cond cond
    init <k> <v> ...
+   leak <key> <start> <end|none>  -> `leakctl …` one line per control the model's `Leak.ctls` registers, then `ok`
    dur <duration>
    pause <t>                -> like `dur t; run` but the configured duration is kept (first part of a paused simulation)
    run                      -> rows `row <time> <k>=<v> ...` then `end <simTime> <prevTime> <ruleIter>`
@@ -82,6 +83,17 @@ def handle (d : DState) (line : String) : DState × List String :=
         else ({ d with cfg := { d.cfg with rules := d.cfg.rules ++ [ctl] } }, ["ok"])
       | none => (d, ["bad-op"])
     | _, _, _ => (d, ["bad-op"])
+  | ["leak", k, st, en] =>
+    -- node.add_leak(wn, …, start_time, end_time): print the controls the MODEL registers and register them
+    match k.toNat?, st.toInt? with
+    | some k, some st =>
+      let l : Leak := ⟨k, st, en.toInt?⟩
+      let out := l.ctls.map fun c =>
+        match c.cond, c.thenA with
+        | .sim ⟨rel, thr, rep⟩, [a] => s!"leakctl {c.id} {c.prio} sim {repr rel} {thr} {rep} {a.key} {a.value} else {c.elseA.length}"
+        | _, _ => "leakctl ?"
+      ({ d with cfg := { d.cfg with presolve := d.cfg.presolve ++ l.ctls } }, out ++ ["ok"])
+    | _, _ => (d, ["bad-op"])
   | "init" :: rest =>
     match parseActs rest with
     | some (as, []) => ({ d with vals := runActions d.vals as }, ["ok"])
